@@ -34,7 +34,7 @@ ASSUMPTIONS = ["pylops is absent: a stand-in module with an empty LinearOperator
                "phases up to 2*pi*|uv|*|x| ~ 1e2 rad are evaluated in double precision: comparisons use 1e-9 relative to the norm of the reference"]
 QUICK_JOBS = 12
 MIN_MONITORS = {"*": {"vis.operator": 40, "vis.preload_equal": 20, "matrix.operator": 40, "adjoint": 20, "adjoint.inner_product": 20,
-                      "normal_equations.D": 10, "normal_equations.F": 10, "normal_equations.mapped": 10, "util.direct": 20}}
+                      "normal_equations.D": 10, "normal_equations.F": 10, "normal_equations.mapped": 10, "util.direct": 20, "history.after_adjoint": 20}}
 RT = 1e-9
 
 
@@ -63,7 +63,7 @@ def relclose(a, b, rt=RT):
     return bool(np.max(np.abs(a - b)) <= rt * max(float(np.max(np.abs(b))), 1e-300))
 
 
-def make(ctx, rng):
+def make(ctx, rng, point_symmetric=False):
     aa = ctx.aa
     H, W = int(rng.integers(1, 7)), int(rng.integers(2, 7))
     m, fam = gen.random_mask(rng, H, W)
@@ -71,6 +71,14 @@ def make(ctx, rng):
         m.ravel()[rng.choice(H * W, size=2, replace=False)] = False
     ps = (float(rng.uniform(0.05, 0.5)), float(rng.uniform(0.05, 0.5)))
     origin = (0.0, 0.0) if rng.random() < 0.3 else (float(rng.normal() * 0.3), float(rng.normal() * 0.3))
+    if point_symmetric:
+        # mask invariant under the point reflection through the frame centre, origin (0, 0): the centres of a pixel and of its
+        # mirror pixel are exact negatives, so a column that is odd under the reflection transforms to exactly imaginary entries
+        m = m & m[::-1, ::-1]
+        if (~m).sum() < 2:
+            m[:] = False
+        origin = (0.0, 0.0)
+        fam = fam + "+point_symmetric"
     mask = aa.Mask2D(mask=m.copy(), pixel_scales=ps, origin=origin)
     K = int(rng.integers(1, 13)) if rng.random() < 0.1 else int(rng.integers(3, 13))
     mag = np.exp(rng.uniform(np.log(1e2), np.log(1e6), size=K))
@@ -125,6 +133,15 @@ def run_op(ctx, i):
             lhs = float(np.real(np.vdot(V, A @ I)))
             rhs = float(I @ _np(im.slim))
             ctx.check(abs(lhs - rhs) <= 1e-9 * max(float(np.abs(A @ I) @ np.abs(V)), 1e-300), "adjoint.inner_product", lhs=lhs, rhs=rhs, **tag)
+        # history on the SAME transformer: after the adjoint has been evaluated every operator is evaluated once more
+        if ok:
+            ok2, v2 = ctx.guarded("history.after_adjoint", lambda: _np(T.visibilities_from(image=aa.Array2D(values=full.copy(), mask=mask))))
+            M2, _ = gen.mapping_matrix(rng, n, 2, kind="signed")
+            ok3, TM2 = ctx.guarded("history.after_adjoint", lambda: _np(T.transform_mapping_matrix(mapping_matrix=M2.copy())))
+            ok4, im2 = ctx.guarded("history.after_adjoint", lambda: _np(T.image_from(visibilities=aa.Visibilities(visibilities=V.copy())).slim))
+            if ok2 and ok3 and ok4:
+                good = [bool(relclose(v2, A @ I)), bool(relclose(TM2, A @ M2)), bool(relclose(im2, np.real(A.conj().T @ V)))]
+                ctx.check(all(good), "history.after_adjoint", visibilities_ok=good[0], mapping_matrix_ok=good[1], second_adjoint_ok=good[2], **tag)
     if (False, "slim") in results and (True, "slim") in results:
         ctx.check(relclose(results[(True, "slim")], results[(False, "slim")], 1e-10), "vis.preload_equal", preload=results[(True, "slim")],
                   direct=results[(False, "slim")], **W)
@@ -161,7 +178,8 @@ def run_inv(ctx, i):
     rng = gen.rng_for(ctx.seed, NO, 2, i)
     if not ctx.begin("inv:%d" % i):
         return
-    c = make(ctx, rng)
+    sym = (i % 5 == 0)
+    c = make(ctx, rng, point_symmetric=sym)
     m, mask, A, uv, n, K = c["m"], c["mask"], c["A"], c["uv"], c["n"], c["K"]
     W = dict(mask=m, scales=c["ps"], origin=c["origin"], uv=uv)
     Func = gen_aa.func_list_class(aa)
@@ -181,6 +199,20 @@ def run_inv(ctx, i):
             M[0, :] += 0.5
             objs.append(Func(grid=g, M=M, regularization=None if unreg else aa.reg.Zeroth(coefficient=float(rng.uniform(0.3, 2)))))
             desc.append({"kind": "func", "matrix": mk, "regularized": not unreg})
+    if sym:
+        # dipole columns (+v at a pixel, -v at its mirror pixel): their transform is exactly imaginary (real part 0.0)
+        idx = {tuple(p): k for k, p in enumerate(np.argwhere(~m))}
+        Hh, Ww = m.shape
+        pairs = [(k, idx[(Hh - 1 - p[0], Ww - 1 - p[1])]) for p, k in idx.items() if idx[(Hh - 1 - p[0], Ww - 1 - p[1])] > k]
+        if pairs:
+            ncol = int(rng.integers(1, 3))
+            Md = np.zeros((n, ncol))
+            for cc in range(ncol):
+                for (a_, b_) in [pairs[int(q)] for q in rng.choice(len(pairs), size=min(len(pairs), int(rng.integers(1, 3))), replace=False)]:
+                    v_ = float(rng.choice([1.0, 0.5, 2.0]))
+                    Md[a_, cc], Md[b_, cc] = v_, -v_
+            objs.append(Func(grid=g, M=Md, regularization=aa.reg.Zeroth(coefficient=float(rng.uniform(0.3, 2)))))
+            desc.append({"kind": "func", "matrix": "dipole_columns(odd under point reflection)", "regularized": True})
     preload = bool(rng.integers(2))
     T = aa.TransformerDFT(uv_wavelengths=uv.copy(), real_space_mask=mask, preload_transform=preload)
     Vd = rng.normal(size=K) * 3 + 1j * rng.normal(size=K) * 3
@@ -212,6 +244,8 @@ def run_inv(ctx, i):
     ok, O = ctx.guarded("normal_equations.operated", lambda: _np(inv.operated_mapping_matrix).copy())
     if ok:
         ctx.check(relclose(O, B), "normal_equations.operated", got=O, expected=B, **W)
+        if sym:
+            ctx.classes["operated_entries_with_real_part_exactly_zero_and_imaginary_part_nonzero"] += int(((O.real == 0.0) & (O.imag != 0.0)).sum())
     try:
         s = _np(inv.reconstruction).copy()
         md = _np(inv.mapped_reconstructed_data).copy()
